@@ -10,7 +10,11 @@ Three reusable pieces (all work on the JSON ASTs of lib/facts.py, standard libra
 * `GuardWalk`  - walks statements in evaluation order and tracks what is known about ONE boolean predicate Q (a flag parameter, a field test, `id == 0`, ..)
                  at every point: `if q { A } else { B }`, `if !q { return .. } A`, `if q { return .. } B`, `match q { true => .., false => .. }`,
                  `q && x`, `!(a || b)`, named locals for the test (`let skip = !q;`), helper calls (inlined blocks) are all the same thing to it.
-                 The rule receives events (`call`, `mcall`, `try`, `ret`, `exit`) together with the state of Q (True / False / None unknown / DEAD unreachable).
+                 The rule receives events (`call`, `mcall`, `try`, `ret`, `assign`, `exit`) together with the state of Q (True / False / None unknown / DEAD unreachable).
+                 For Result-valued locals it also keeps what is known about Q IF the local holds an Err (`errq`): `match r { Err(e) if q => A, other => other }`,
+                 `if let Err(e) = &r { if q { return .. } }`, `if q && r.is_err() { return .. }` all say "an Err that gets past here has Q false";
+                 `exits()` gives the leaves of a value including the `?` of a once-called closure / helper whose result is that value.
+* `discriminations` - `match x {..}`, `let PAT = x else {..};` and `if let PAT = x {..} else {..}` as one (scrutinee, arms) shape.
 """
 import re
 from lib.facts import find, walk, is_node, path_of, strip_refs, strip_generics
@@ -307,6 +311,67 @@ def value_closure(e, defs, limit=40):
     return out
 
 
+def discriminations(stmts):
+    """every place below `stmts` where a value is taken apart by cases, in ONE shape: (scrutinee, arms) with arms = [[pattern, guard, body, line], ..] -
+    `match x {..}` as written; `let PAT = x else { E };` REST  as  [PAT => { REST }, _ => E];  `if let PAT = x { A } else { B }`  as  [PAT => { A }, _ => B]"""
+    out = []
+
+    def block(sts):
+        for i, st in enumerate(sts):
+            if not is_node(st):
+                continue
+            if st[0] == "let":
+                if len(st) > 3 and st[3] is not None and st[2] is not None:
+                    out.append((st[2], [[st[1], None, ["block", sts[i + 1:]], 0], [["pwild"], None, st[3], 0]]))
+                    expr(st[3])
+                if st[2] is not None:
+                    expr(st[2])
+            elif st[0] == "expr":
+                expr(st[1])
+
+    def expr(e):
+        if not is_node(e):
+            if isinstance(e, list):
+                for x in e:
+                    expr(x)
+            return
+        t = e[0]
+        if t in ("block", "unsafe", "loop"):
+            block(e[1])
+        elif t == "match":
+            out.append((e[1], e[2]))
+            expr(e[1])
+            for arm in e[2]:
+                expr(arm[1])
+                expr(arm[2])
+        elif t == "if":
+            if is_node(e[1]) and e[1][0] == "letc":
+                out.append((e[1][2], [[e[1][1], None, ["block", e[2]], 0], [["pwild"], None, e[3] if e[3] is not None else ["block", []], 0]]))
+                expr(e[1][2])
+            else:
+                expr(e[1])
+            block(e[2])
+            expr(e[3])
+        elif t == "for":
+            expr(e[2])
+            block(e[3])
+        elif t == "while":
+            expr(e[1])
+            block(e[2])
+        elif t == "closure":
+            expr(e[2])
+        elif t in ("let", "expr"):
+            block([e])
+        elif t == "item" or (t[:1] == "p" and t != "path"):
+            return
+        else:
+            for c in e[1:]:
+                if isinstance(c, list):
+                    expr(c)
+    block(stmts)
+    return out
+
+
 def const_table(items, mod=None):
     """name -> value AST of the `const` items of the crate (those of module `mod` win)"""
     out = {}
@@ -376,6 +441,32 @@ def narrow(q, facts):
     return q
 
 
+def combine(f1, f2):
+    """conjunction of two fact sets (DEAD = impossible)"""
+    if f1 is DEAD or f2 is DEAD:
+        return DEAD
+    u = set(f1) | set(f2)
+    return DEAD if (True in u and False in u) else u
+
+
+def _strip_access(e):
+    while is_node(e) and e[0] == "mcall" and e[2] in ("as_ref", "as_mut", "borrow", "clone", "as_deref") and not e[4]:
+        e = e[1]
+    return e
+
+
+def is_err_pat(p):
+    """`Err(x)` / `Err(_)` / `Result::Err(x)`: matches every Err"""
+    p = p[2] if is_node(p) and p[0] == "pref" else p
+    return is_node(p) and p[0] == "pts" and p[1].split("::")[-1] == "Err" and len(p[2]) == 1 and is_node(p[2][0]) and \
+        (p[2][0][0] == "pwild" or (p[2][0][0] == "pident" and p[2][0][4] is None) or (p[2][0][0] == "pref" and is_node(p[2][0][2]) and p[2][0][2][0] in ("pwild", "pident")))
+
+
+def is_whole_binding(p):
+    """a pattern that binds the whole matched value to a name (`other => ..`)"""
+    return is_node(p) and p[0] == "pident" and p[4] is None and (p[1][:1].islower() or p[1][:1] == "_")
+
+
 def join(a, b):
     if a in (DIV, DEAD) and b in (DIV, DEAD):
         return DIV if DIV in (a, b) else DEAD
@@ -407,6 +498,10 @@ class GuardWalk:
         self.frames = []       # inlined helpers being walked: [{"fn":, "exit":}]
         self.closure = 0
         self.at_exit = True
+        # Result-valued local -> what is known about Q IF the local holds an Err (a set of bools, or DEAD = it cannot hold an Err here):
+        # `match r { Err(e) if q => .., other => other }` binds `other` with {False}; `if let Err(e) = &r { if q { return .. } }` leaves r with {False}
+        self.errq = {}
+        self.assume_err = None
 
     # -- conditions
     def cond_value(self, e):
@@ -426,6 +521,8 @@ class GuardWalk:
                     v = self.cond_value(a)
                     if v is not None:
                         return v if (bv == (e[1] == "==")) else _neg(v)
+        if e[0] == "mcall" and e[2] in ("is_err", "is_ok") and not e[4] and self.assume_err is not None and path_of(strip_refs(_strip_access(e[1]))) == self.assume_err:
+            return "T" if e[2] == "is_err" else "F"
         if e[0] == "path":
             if e[1] in self.env:
                 return self.env[e[1]]
@@ -466,20 +563,29 @@ class GuardWalk:
 
     # -- scopes
     def _save(self):
-        return (self.defs, self.env)
+        return (self.defs, self.env, self.errq)
 
     def _restore(self, s):
-        self.defs, self.env = s
+        self.defs, self.env, self.errq = s
 
     def _enter(self):
         s = self._save()
-        self.defs, self.env = dict(self.defs), dict(self.env)
+        self.defs, self.env, self.errq = dict(self.defs), dict(self.env), dict(self.errq)
         return s
 
     def _bind_opaque(self, pat):
         for n in binders(pat):
             self.defs[n] = None
             self.env.pop(n, None)
+            self.errq.pop(n, None)
+
+    def _learn_err(self, scrut, state):
+        """after a statement that took the Err case of local `scrut` apart: `state` is the state of Q on the ways the Err case continues past it"""
+        v = path_of(strip_refs(_strip_access(scrut)))
+        if v is None or "::" in v or self.defs.get(v) is None:
+            return
+        f = DEAD if state in (DIV, DEAD) else ({state} if state in (True, False) else set())
+        self.errq[v] = combine(self.errq.get(v, set()), f)
 
     # -- statements
     def walk_fn(self, stmts, q=None):
@@ -500,6 +606,7 @@ class GuardWalk:
                     for n in binders(st[1]):
                         self.defs[n] = st[2]
                         self.env.pop(n, None)
+                        self.errq.pop(n, None)
                     if v is not None and is_node(st[1]) and st[1][0] == "pident":
                         self.env[st[1][1]] = v
                 else:
@@ -522,6 +629,19 @@ class GuardWalk:
         """the exit leaves of value expression `e` (no events are delivered): [(leaf, q)]"""
         got = []
         on, self.on = self.on, (lambda kind, node, qq, w: got.append((node, qq)) if kind == "exit" else None)
+        s = self._enter()
+        try:
+            self.expr(e, q, exit_val=True)
+        finally:
+            self.on = on
+            self._restore(s)
+        return got
+
+    def exits(self, e, q):
+        """like `leaves`, and also the `?` through which an Err becomes the value of `e` (a `?` directly in `e`, in an inlined helper / closure whose result is
+        the value of `e`): [("exit" | "try", node, q)]"""
+        got = []
+        on, self.on = self.on, (lambda kind, node, qq, w: got.append((kind, node, qq)) if kind == "exit" or (kind == "try" and w.at_exit) else None)
         s = self._enter()
         try:
             self.expr(e, q, exit_val=True)
@@ -567,23 +687,61 @@ class GuardWalk:
             self._restore(s)
             qe = narrow(q, self.implied(e[1], False))
             re_ = self.expr(e[3], qe, exit_val) if e[3] is not None else qe
+            c = e[1]
+            if is_node(c) and c[0] == "letc" and is_err_pat(c[1]):
+                self._learn_err(c[2], rt)              # `if let Err(e) = &r { .. }`: the Err case continues the way the then-branch does
+            elif is_node(c) and c[0] == "letc" and is_node(c[1]) and c[1][0] == "pts" and c[1][1].split("::")[-1] == "Ok":
+                self._learn_err(c[2], re_)
+            else:
+                # `if flag && r.is_err() { return .. }`: evaluate the condition once more ASSUMING r holds an Err - the Err case of r continues through the
+                # branches that are possible under that assumption, with what the condition then says about Q
+                for v in sorted({path_of(strip_refs(_strip_access(mc[1]))) or "" for mc in find(c, "mcall") if mc[2] in ("is_err", "is_ok") and not mc[4]}):
+                    if not v or "::" in v or self.defs.get(v) is None:
+                        continue
+                    self.assume_err = v
+                    ft, fe = self.implied(c, True), self.implied(c, False)
+                    self.assume_err = None
+                    out_t = DEAD if ft is DEAD else (rt if rt in (DIV, DEAD) else narrow(rt, ft))
+                    out_e = DEAD if fe is DEAD else (re_ if re_ in (DIV, DEAD) else narrow(re_, fe))
+                    self._learn_err(["path", v], join(out_t, out_e))
             return join(rt, re_)
         if t == "match":
             self.expr(e[1], q)
             facts = self._match_facts(e[1], e[2])
             res = None
             first = True
+            errf = set()            # what is known about Q if the scrutinee is an Err and this arm is reached (the guards of earlier `Err(_) if g` arms failed)
+            err_after, err_open, err_known = DEAD, True, True
             for arm, f in zip(e[2], facts):
                 qa = narrow(q, f)
                 s = self._enter()
                 self._bind_opaque(arm[0])
+                whole = is_whole_binding(arm[0])
+                if whole:
+                    # `other => ..`: the name IS the scrutinee, minus what the earlier arms took
+                    self.defs[arm[0][1]] = e[1]
+                    self.errq[arm[0][1]] = errf
+                gfalse = set()
                 if arm[1] is not None:
                     self.cond(arm[1], qa)
+                    gfalse = self.implied(arm[1], False)
                     qa = narrow(qa, self.implied(arm[1], True))
                 r = self.expr(arm[2], qa, exit_val)
                 self._restore(s)
+                takes_err = is_err_pat(arm[0]) or whole or (is_node(arm[0]) and arm[0][0] == "pwild")
+                if not takes_err and not (is_node(arm[0]) and arm[0][0] == "pts" and arm[0][1].split("::")[-1] in ("Ok", "Some", "None")):
+                    err_known = False       # a pattern that may or may not take an Err: nothing is learnt about the Err case from this match
+                if takes_err and err_open:
+                    err_after = join(err_after, r if r in (DIV, DEAD) else narrow(r, errf))
+                    if arm[1] is None:
+                        err_open = False
+                if is_err_pat(arm[0]):
+                    # later arms see an Err only if this arm's guard failed (never, if it has none)
+                    errf = DEAD if arm[1] is None else combine(errf, gfalse)
                 res = r if first else join(res, r)
                 first = False
+            if not first and err_known and not err_open:
+                self._learn_err(e[1], err_after)
             return q if first else res
         if t == "for":
             self.expr(e[2], q)
